@@ -141,6 +141,58 @@ impl<Op> Gen<Op> {
     }
 }
 
+/// Abstract, replayable command. Scripts store these (never ops, never random bytes): the adapter
+/// interprets a command against the live state through the public API, so a script keeps its meaning on a
+/// modified tree, after shrinking, and across harness versions (new command kinds may be added, the
+/// interpretation of existing ones is stable).
+#[derive(Clone, Debug, PartialEq, Serialize, serde::Deserialize, Default)]
+pub struct Cmd {
+    /// command kind, e.g. "add", "add_all", "rm", "rm_all", "update", "rm_key", "write", "inc", "insert" ...
+    pub k: String,
+    /// arguments: members / key / index / steps ...
+    #[serde(default)]
+    pub a: Vec<u64>,
+    /// which read entry point supplies the context ("contains", "iter", "read", "read_ctx", "get", "keys", "len", "is_empty")
+    #[serde(default)]
+    pub src: String,
+    /// take the remove context from an older state of the same replica (`Act::Gen.old`)
+    #[serde(default)]
+    pub stale: bool,
+    /// nested command for `update`
+    #[serde(default)]
+    pub sub: Option<Box<Cmd>>,
+}
+impl Cmd {
+    pub fn new(k: &str, a: Vec<u64>) -> Cmd {
+        Cmd { k: k.to_string(), a, src: String::new(), stale: false, sub: None }
+    }
+    pub fn src(mut self, s: &str) -> Cmd {
+        self.src = s.to_string();
+        self
+    }
+    pub fn stale(mut self, st: bool) -> Cmd {
+        self.stale = st;
+        self
+    }
+    pub fn sub(mut self, c: Cmd) -> Cmd {
+        self.sub = Some(Box::new(c));
+        self
+    }
+    pub fn arg(&self, i: usize) -> u64 {
+        self.a.get(i).cloned().unwrap_or(0)
+    }
+    pub fn show(&self) -> String {
+        let mut s = format!("{}{:?}", self.k, self.a);
+        if !self.src.is_empty() {
+            s += &format!("@{}{}", if self.stale { "stale-" } else { "" }, self.src);
+        }
+        if let Some(c) = &self.sub {
+            s += &format!(".{}", c.show());
+        }
+        s
+    }
+}
+
 pub struct SpecIn<'a> {
     /// (op id, fact) for every op in K
     pub facts: &'a [(usize, Fact)],
@@ -162,7 +214,10 @@ pub trait Sut: Clone + Debug + PartialEq + Serialize + DeserializeOwned + Send +
     /// read-from model and the context the op really carries legitimately differ; see DESIGN §5a)
     const ANYK_OK: bool = true;
     fn new() -> Self;
-    fn gen(&self, actor: A, cmd: (u8, u8, u8), sh: &mut Shadow, old: &Self) -> Option<Gen<Self::Op>>;
+    /// draw a random abstract command (domain-sized arguments; indices are reduced modulo the live length at execution)
+    fn random_cmd(rng: &mut crate::rng::Rng, sh: &Shadow) -> Cmd;
+    /// interpret a command at replica `actor` against the current state through the public API
+    fn gen(&self, actor: A, cmd: &Cmd, sh: &mut Shadow, old: &Self) -> Option<Gen<Self::Op>>;
     fn apply_op(&mut self, op: Self::Op);
     fn merge_from(&mut self, _other: Self) {
         unreachable!("{} has no merge", Self::NAME)
